@@ -260,8 +260,8 @@ fn k_wprim_sleb128() {
 
 /// write_initial_length(format) + write_initial_length_at(offset, length, format), every length, one harness per format:
 /// 4 / 12 bytes are appended (0xffff_ffff escape first for DWARF64), the returned offset addresses the length word,
-/// the patch is Ok exactly when the length fits the word, and the real reader gets (length, format) back for every
-/// length that DWARF allows in that format (32-bit lengths 0xffff_fff0.. are reserved: finding F-wcore-1, not asserted here)
+/// the patch is Ok exactly when the length fits the word and is not a reserved 32-bit length (0xffff_fff0..=0xffff_ffff:
+/// Err(InitialLengthOverflow)), and the real reader gets (length, format) back for EVERY accepted length
 fn initial_length(format: Format, n: usize, body: usize) {
     let e = any_endian();
     let length: u64 = kani::any();
@@ -281,6 +281,10 @@ fn initial_length(format: Format, n: usize, body: usize) {
     if n == 4 && length > 0xffff_ffff {
         assert!(res == Err(Error::ValueTooLarge));
         assert!(uint_of(&w.slice()[body..], e.is_big_endian()) == 0);
+    } else if n == 4 && length >= 0xffff_fff0 {
+        // DWARF 5 section 7.4: reserved 32-bit lengths are refused (F-wcore-1, fixed in /repo 3c89b90)
+        assert!(res == Err(Error::InitialLengthOverflow));
+        assert!(uint_of(&w.slice()[body..], e.is_big_endian()) == 0);
     } else {
         assert!(res == Ok(()));
         // the offset returned is the offset of the length word
@@ -288,11 +292,10 @@ fn initial_length(format: Format, n: usize, body: usize) {
         if n == 12 {
             assert!(uint_of(&w.slice()[1..5], e.is_big_endian()) == 0xffff_ffff);
         }
-        if n == 12 || length < 0xffff_fff0 {
-            let mut r = EndianSlice::new(&w.slice()[1..], e);
-            assert!(r.read_initial_length() == Ok((length as usize, format)));
-            assert!(r.is_empty());
-        }
+        // every accepted length reads back
+        let mut r = EndianSlice::new(&w.slice()[1..], e);
+        assert!(r.read_initial_length() == Ok((length as usize, format)));
+        assert!(r.is_empty());
     }
 }
 
